@@ -5,7 +5,8 @@
 (* value incl. the absent value 3, and every argument of the small domains      *)
 (* below.  The choice is spread over phases so that all workers share the work. *)
 EXTENDS IIndexAlg
-CONSTANTS MaxRows1, MaxRows2
+CONSTANTS MaxRows1, MaxRows2,
+          Snapshot   \* TRUE: update() iterates a copy of its argument (the repaired code); FALSE: the pinned code
 
 Vals == 0..2
 CVals == 0..3
@@ -47,6 +48,9 @@ Next ==
             LET os == <<m>> \o Tail(s)  dd == Concat(D, s, od, os) IN
             Apply("append", AppendAlg(s, c, P0, os, oc, RepPairs(od, os, oc)), W(ConcatShape(s, os), dd, ModalOrAny(dd), 0))
        \/ \E cells \in CellsArgs : Apply("update", UpdateAlg(s, c, P0, cells), W(s, Assign(D, cells), "exact", c))
+       \/ Apply("update(self)", UpdateSelfAlg(s, c, P0, Snapshot), W(s, D, "exact", c))
+       \/ LET os == s  dd == Concat(D, s, D, s) IN          \* append(self): concatenate([A, A])
+            Apply("append(self)", AppendAlg(s, c, P0, os, c, P0), W(ConcatShape(s, os), dd, ModalOrAny(dd), 0))
        \/ \E mask \in [1..s[1] -> BOOLEAN] :
             LET dd == SelectRows(D, s, mask) IN
             Apply("filtered", FilteredAlg(s, c, P0, mask), W(FilterShape(s, mask), dd, ModalOrAny(dd), 0))
